@@ -234,6 +234,24 @@ def real_env(env: dict) -> dict:
     return e
 
 
+def reference_table(text: str, envs: list[dict]) -> list[bool]:
+    """packaging's verdict per environment; [] when packaging cannot express an environment
+    (it has no multi-valued `extra`)."""
+    if any(len(e.get("extra", [])) > 1 for e in envs):
+        return []
+    try:
+        pm = PkgMarker(text)
+        out = []
+        for e in envs:
+            env = dict(BASE_ENV)
+            for k, v in e.items():
+                env[k] = (v[0] if v else "") if k == "extra" else v
+            out.append(bool(pm.evaluate(env)))
+        return out
+    except Exception:  # noqa: BLE001
+        return []
+
+
 def table_of(m, envs: list[dict]) -> list[bool]:
     return [bool(m.evaluate(real_env(e))) for e in envs]
 
@@ -352,6 +370,8 @@ class MSession:
                         full["exc"] = "evaluate:" + exc
                     else:
                         full["table"] = tab
+                        if ev["op"] == "parse" and ev["text"] not in ("", "<empty>"):
+                            full["ref"] = reference_table(ev["text"], envs)
                         full["shape"] = shape_of(obj)
                         full["vars"] = sorted(vars_of(obj))
                         full["is_empty"] = bool(obj.is_empty())
